@@ -331,8 +331,11 @@ class Run:
 
     def known(self, fid, what):
         line = "KNOWN-FINDING: property=%s id=%s %s" % (self.prop, fid, what)
-        if line not in self.known_printed:
+        head = "KNOWN-FINDING: property=%s id=%s " % (self.prop, fid)
+        if not any(l.startswith(head) for l in self.known_printed):
             self.known_printed.append(line)
+        else:
+            self.notes.append("also: " + line)
 
     def finish(self, level, explanation, trusted_base, checker_cmd="cd /verif/lean && lake build && lake env leanchecker Lox"):
         wall = time.time() - self.t0
